@@ -272,6 +272,9 @@ public:
 				setinf(s);
 				return *this;
 			}
+			// every other payload is a NaN as well (quiet when the most significant fraction bit is set)
+			setnan((raw & 0x0040'0000ul) ? NAN_TYPE_QUIET : NAN_TYPE_SIGNALLING);
+			return *this;
 		}
 		if (rhs == 0.0) { // IEEE rule: this is valid for + and - 0.0
 			set(nbits - 1ull, s);
@@ -431,6 +434,9 @@ public:
 				setinf(s);
 				return *this;
 			}
+			// every other payload is a NaN as well (quiet when the most significant fraction bit is set)
+			setnan((raw & 0x0008'0000'0000'0000ull) ? NAN_TYPE_QUIET : NAN_TYPE_SIGNALLING);
+			return *this;
 		}
 		if (rhs == 0.0) { // IEEE rule: this is valid for + and - 0.0
 			set(nbits - 1ull, s);
